@@ -214,6 +214,14 @@ class Prop(common.PropertyCheck):
                     yield {'N': N, 'D': D, 'keys': [[{'t': 'slice', 'v': [a, a + k, None]}, ck]], 'set': True}
                     yield {'N': N, 'D': D, 'keys': [[{'t': 'ints', 'v': list(range(a, a + k))}, ck]], 'set': True}
                     yield {'N': N, 'D': D, 'keys': [[{'t': 'slice', 'v': [a, a + k, None]}, {'t': 'slice', 'v': [0, k, None]}]], 'set': True}
+        # a one-channel column (1-D) taken first, then events selected from it: the channel metadata stays that of the one channel
+        for N in (1, 2, 4):
+            for D in (1, 3):
+                for first in ([{'t': 'slice', 'v': [0, 1, None]}, {'t': 'name', 'v': 'ch%d' % (D - 1)}], [{'t': 'ints', 'v': [N - 1]}, {'t': 'pos', 'v': 0}],
+                              [{'t': 'slice', 'v': [None, None, None]}, {'t': 'pos', 'v': -1}], [{'t': 'mask', 'v': [True] + [False] * (N - 1)}, {'t': 'name', 'v': 'ch0'}]):
+                    for second in ({'t': 'ints', 'v': [0, 0]}, {'t': 'ints', 'v': []}, {'t': 'slice', 'v': [0, 0, None]}, {'t': 'slice', 'v': [None, None, -1]},
+                                   {'t': 'mask1', 'v': False}, {'t': 'mask1', 'v': True}, {'t': 'ints', 'v': [0, 0, 0]}):
+                        yield {'N': N, 'D': D, 'keys': [first, [second, {'t': 'rowonly'}]], 'column_chain': True}
         # histories: an indexing that NumPy refuses (caught by the caller), then expressions on the same sample
         fails = [[{'t': 'int', 'v': 99}, {'t': 'name', 'v': 'ch0'}], [{'t': 'ints', 'v': [0, 99]}, {'t': 'pos', 'v': 0}],
                  [{'t': 'mask', 'v': [True] * 9}, {'t': 'list', 'v': [{'t': 'name', 'v': 'ch1'}]}], [{'t': 'int', 'v': 0}, {'t': 'name', 'v': 'zz'}],
@@ -284,10 +292,24 @@ class Prop(common.PropertyCheck):
         # independent expectation for chains: plain provenance array + names tracked by hand
         exp = None
         last = (False, None)
-        if len(case['keys']) > 1:
+        if len(case['keys']) > 1 and not case.get('column_chain'):
             exp = self.plain_chain(case, parent)
         try:
             for rk, ck in case['keys']:
+                if case.get('column_chain') and isinstance(cur, FlowCal.io.FCSData) and cur.ndim == 1 and ck['t'] == 'rowonly':
+                    # events selected from a one-channel column
+                    before = [list(cur._channels), list(map(tuple, cur._range)), list(cur._resolution), list(cur._amplification_type)]
+                    key = to_py_row(rk) if rk['t'] != 'mask1' else np.full(cur.shape[0], bool(rk['v']))
+                    vals = np.asarray(cur)[key]
+                    res = cur[key]
+                    if not isinstance(res, FlowCal.io.FCSData):
+                        return {'skip': 'plain result'}
+                    after = [list(res._channels), list(map(tuple, res._range)), list(res._resolution), list(res._amplification_type)]
+                    if len(before[0]) == 1 and after != before:
+                        return {'meta_err': 'events %s selected from the one-channel column %s: the channel metadata became %s (was %s)' % (rk, case['keys'][0], after[0], before[0])}
+                    if not np.array_equal(np.asarray(res), vals):
+                        return {'meta_err': 'events %s selected from the one-channel column %s: values differ from plain indexing' % (rk, case['keys'][0])}
+                    return {'skip': 'column chain ok'}
                 if not isinstance(cur, FlowCal.io.FCSData) or cur.ndim != 2:
                     return {'skip': 'intermediate result is not a 2-D sample'}
                 last = (cur is parent, [rk, ck])
